@@ -2,6 +2,7 @@ package props
 
 import (
 	"context"
+	"errors"
 	"fmt"
 	"io"
 	"math/rand"
@@ -128,6 +129,11 @@ func genCancelScript(r *rand.Rand, kind Kind, half bool, handlerMode string, gat
 	}
 	return s
 }
+
+var (
+	errC04Cause    = errors.New("the caller's reason for ending the call")
+	c04CauseToggle atomic.Int64
+)
 
 type cancelVerdict struct {
 	sig, msg string
@@ -298,8 +304,13 @@ func runPlaced(c *Carrier, sc *Script, mode string, pl placement) (res0 placeRes
 	var preCancel context.CancelFunc
 	if mode == "deadline" {
 		parent = vd
-	} else {
+	} else if c04CauseToggle.Add(1)%2 == 0 {
 		parent, preCancel = context.WithCancel(parent)
+	} else {
+		// every other cancellation carries a cause (context.WithCancelCause): Err() is still Canceled
+		var cf context.CancelCauseFunc
+		parent, cf = context.WithCancelCause(parent)
+		preCancel = func() { cf(errC04Cause) }
 	}
 	end := func() {
 		res.tEnd = core.Tick()
@@ -484,6 +495,11 @@ func runC04Extra(e *core.Env) {
 			}
 			dl := time.Duration(500+r.Intn(9000)) * time.Microsecond
 			parent, cancel := context.WithTimeout(context.Background(), dl)
+			if r.Intn(2) == 0 {
+				// a deadline with a cause (context.WithTimeoutCause): Err() is still DeadlineExceeded
+				cancel()
+				parent, cancel = context.WithTimeoutCause(context.Background(), dl, errC04Cause)
+			}
 			run := c.Svc.NewRun(sc, c.Name)
 			ok, _ := run.Exec(c.CC, parent, watchdog)
 			cancel()
